@@ -1099,7 +1099,7 @@ def plan(ctx):
     gsh = [x for x in sh if (x["kind"], x["pos"]) in (("hex", P1), ("rect", P0), ("rect", P1), ("square", P0), ("sec3", P0),
                                                     ("wrap_square", P0), ("circle", P0))]
     for i, ch in enumerate(_chunks(gsh, 4 if th else 2)):
-        runs.append((f"containg/{i}", dict(ops={"containg"}, shapes=ch, rots=grots, G=G if th else 4, gens=gens)))
+        runs.append((f"containg/{i}", dict(ops={"containg"}, shapes=ch, rots=grots, G=G if th else 4, gens=gens if th else gens[:2])))
     # (border points divide: the pairs rotation / direction angle stay on triples with small hypotenuse - 32 bit)
     runs.append(("borderg", dict(ops={"borderg"}, shapes=gsh, rots=grots, G=1, gens=[dict(p=1, sgn=1), dict(p=2, sgn=-1), dict(p=3, sgn=-1)])))
     gcl = [cluster("simple", 7, q(3, 0, 2), P1), cluster("square", 4, q(3, 0, 2), P1), cluster("3sec", 3, q(3, 0, 2), P0),
